@@ -1670,11 +1670,15 @@ func (sa *Application) tryNode(node *Node, ask *Allocation) (*AllocationResult, 
 
 	// everything OK really allocate
 	if node.TryAddAllocation(ask) {
+		// link the node immediately: a release or removal that is processed before the partition finalises the
+		// allocation must be able to find the node to clean up
+		ask.SetNodeID(node.NodeID)
 		if err := sa.queue.TryIncAllocatedResource(ask.GetAllocatedResource()); err != nil {
 			log.Log(log.SchedApplication).DPanic("queue update failed unexpectedly",
 				zap.Error(err))
 			// revert the node update
 			node.RemoveAllocation(allocationKey)
+			ask.SetNodeID("")
 			return nil, nil
 		}
 		// mark this alloc as allocated
